@@ -46,6 +46,7 @@ CLAIMS = {
             'Every decodable non-Ack packet handed to RenetClient::process_packet has its sequence recorded by add_pending_ack (U15). Not decided: the composition in the Ack arm of RenetClient::process_packet (ack ranges -> sent_packets -> message ids).'),
     'C09': ('Accounting invariant memory_usage_bytes == sum of stored message lengths + reserved reassembly buffers <= max, preserved by every operation of the reliable '
             'receive channel from every state, including the offset state inside process_slice; duplicates of done messages reserve nothing (clean()).',
+            'RenetClient::update (U18, verbatim around an assumed values_mut induction, rule D18) applies the 3-second discard to every unreliable receive channel with the advanced clock. '
             'Not decided: the end-to-end "never disconnected within budget" sentence; other channel structs when their units are not listed in the evidence.'),
     'C13': ('pending_acks.len() <= 64 after every add_pending_ack for any arrival order (Verus); every netcode packet kind encodes to exactly 1+n+body+16 <= 1400 bytes, '
             'payloads of every length 0..=1300, request = 1078 bytes (Kani, complete).',
@@ -79,7 +80,8 @@ CLAIMS.update({
     'C15': ('Per call of the reliable send loop body for an arbitrary message and any current_time >= last_sent: a small message is not re-sent before resend_time and is sent '
             '(timestamp = now, appended to the batch, budget charged) once it elapsed and the budget allows; every slice packet emitted is unacknowledged and due, its transmission time is recorded; '
             'timestamps change only to now; acknowledged slices/messages are never emitted (process_*_ack removes the entry or sets the flag: U6).',
-            'Assumed: D6 iteration protocol; time is monotone (last_sent <= current_time). Not decided: the 3-second sent_packets horizon and ack->id lookup in RenetClient (out of reach); '
+            'The 3-second horizon: RenetClient::update (U18) forgets the record of a sent packet only when it is at least 3 s old and keeps every younger record unchanged. '
+            'Assumed: D6/D18 iteration protocol; time is monotone (last_sent <= current_time). Not decided: the ack->id lookup in the Ack arm of RenetClient::process_packet (rule D8); '
             '"promptly" for slices is only the per-slice statement above, not a bound over ticks.'),
 })
 
